@@ -264,48 +264,70 @@ Section Collect.
   Variable cv : list (str * value).
   Variable tn : str.                       (* runtime object type *)
 
-  (* state: visited fragment names, grouped field set.  None = out of fuel.
-     Fuel bounds the nesting of fragments; the walk along a selection list is structural. *)
-  Fixpoint collect (fuel : nat) (sels : list selection) (st : list str * grouped)
-    : option (list str * grouped) :=
-    match fuel with
-    | O => None
-    | S f =>
-      (fix go (sels : list selection) (st : list str * grouped) : option (list str * grouped) :=
-         match sels with
-         | [] => Some st
-         | sel :: rest =>
-           match sel with
-           | SField al name args dirs sub =>
-               if should_include cv dirs
-               then go rest (fst st, add_field (response_key al name) (mkFS name args sub) (snd st))
-               else go rest st
-           | SInline tc dirs sub =>
-               if should_include cv dirs
-                  && match tc with Some c => cond_matches s c tn | None => true end
-               then match collect f sub st with
-                    | None => None
-                    | Some st' => go rest st'
-                    end
-               else go rest st
-           | SSpread name dirs =>
-               if negb (should_include cv dirs) then go rest st
-               else if mem name (fst st) then go rest st
-               else
-                 match find_frag name frags with
-                 | None => go rest (name :: fst st, snd st)
-                 | Some fr =>
-                   if cond_matches s (fr_cond fr) tn
-                   then match collect f (fr_sels fr) (name :: fst st, snd st) with
-                        | None => None
-                        | Some st' => go rest st'
-                        end
-                   else go rest (name :: fst st, snd st)
+  (* The walk is generic in what is accumulated: [collect] accumulates the grouped field set as the
+     specification does; [collect_flat] the plain sequence of visited fields (used to state
+     "first appearance order").  State = visited fragment names x accumulator. *)
+  Section Gen.
+    Variable A : Type.
+    Variable add : str -> fieldsel -> A -> A.
+
+    (* one selection list, given the walk [rec] for nested selection sets; None = out of fuel *)
+    Fixpoint collect_list (rec : list selection -> list str * A -> option (list str * A))
+      (sels : list selection) (st : list str * A) : option (list str * A) :=
+      match sels with
+      | [] => Some st
+      | sel :: rest =>
+        match sel with
+        | SField al name args dirs sub =>
+            if should_include cv dirs
+            then collect_list rec rest (fst st, add (response_key al name) (mkFS name args sub) (snd st))
+            else collect_list rec rest st
+        | SInline tc dirs sub =>
+            if should_include cv dirs
+               && match tc with Some c => cond_matches s c tn | None => true end
+            then match rec sub st with
+                 | None => None
+                 | Some st' => collect_list rec rest st'
                  end
-           end
-         end) sels st
-    end.
+            else collect_list rec rest st
+        | SSpread name dirs =>
+            if negb (should_include cv dirs) then collect_list rec rest st
+            else if mem name (fst st) then collect_list rec rest st
+            else
+              match find_frag name frags with
+              | None => collect_list rec rest (name :: fst st, snd st)
+              | Some fr =>
+                if cond_matches s (fr_cond fr) tn
+                then match rec (fr_sels fr) (name :: fst st, snd st) with
+                     | None => None
+                     | Some st' => collect_list rec rest st'
+                     end
+                else collect_list rec rest (name :: fst st, snd st)
+              end
+        end
+      end.
+
+    (* fuel bounds the nesting of inline fragments and fragment spreads *)
+    Fixpoint collect_gen (fuel : nat) (sels : list selection) (st : list str * A)
+      : option (list str * A) :=
+      match fuel with
+      | O => None
+      | S f => collect_list (collect_gen f) sels st
+      end.
+  End Gen.
+
+  Definition collect := collect_gen grouped add_field.
+  Definition collect_flat :=
+    collect_gen (list (str * fieldsel)) (fun k f l => l ++ [(k, f)]).
 End Collect.
+
+(* grouping a sequence of (response key, field) in order *)
+Definition group (fl : list (str * fieldsel)) : grouped :=
+  fold_left (fun g kf => add_field (fst kf) (snd kf) g) fl [].
+
+(* the distinct keys of a sequence in order of first appearance *)
+Definition first_occ (l : list str) : list str :=
+  fold_left (fun acc k => if mem k acc then acc else acc ++ [k]) l [].
 
 (* ------------------------------------------------------------------ execution *)
 
@@ -344,6 +366,49 @@ Definition merged_sels (fs : list fieldsel) : list selection := flat_map fs_sels
 
 Inductive fres := FSkip | FRes (o : out).
 
+(* the loop of ExecuteSelectionSet over the grouped field set, given ExecuteField [ef];
+   stops at the first field whose error propagates *)
+Definition groups_out : Type := (option (list (str * json)) * list path * list call)%type.
+
+Fixpoint exec_groups (ef : list fieldsel -> option fres) (g : grouped) : option groups_out :=
+  match g with
+  | [] => Some (Some [], [], [])
+  | (k, fs) :: rest =>
+    match ef fs with
+    | None => None
+    | Some FSkip => exec_groups ef rest
+    | Some (FRes (CErr, es, cs)) => Some (None, pre_errs (PKey k) es, pre_calls (PKey k) cs)
+    | Some (FRes (CVal j, es, cs)) =>
+      match exec_groups ef rest with
+      | None => None
+      | Some (r, es', cs') =>
+          Some (option_map (cons (k, j)) r,
+                pre_errs (PKey k) es ++ es', pre_calls (PKey k) cs ++ cs')
+      end
+    end
+  end.
+
+(* the loop of CompleteValue over list items, given the completion [cf] of one item (with the
+   item type's error catching applied); [i] = index of the first item *)
+Definition items_out : Type := (option (list json) * list path * list call)%type.
+
+Fixpoint complete_items (cf : data -> option out) (items : list data) (i : nat) : option items_out :=
+  match items with
+  | [] => Some (Some [], [], [])
+  | x :: rest =>
+    match cf x with
+    | None => None
+    | Some (CErr, es, cs) => Some (None, pre_errs (PIdx i) es, pre_calls (PIdx i) cs)
+    | Some (CVal j, es, cs) =>
+      match complete_items cf rest (S i) with
+      | None => None
+      | Some (r, es', cs') =>
+          Some (option_map (cons j) r,
+                pre_errs (PIdx i) es ++ es', pre_calls (PIdx i) cs ++ cs')
+      end
+    end
+  end.
+
 Section Exec.
   Variable s : schema.
   Variable frags : list fragment.
@@ -357,26 +422,7 @@ Section Exec.
       match collect s frags cv tn f sels ([], []) with
       | None => None
       | Some (_, g) =>
-        match
-          (fix go (g : grouped) : option (option (list (str * json)) * list path * list call) :=
-             match g with
-             | [] => Some (Some [], [], [])
-             | (k, fs) :: rest =>
-               match exec_field f tn obj fs with
-               | None => None
-               | Some FSkip => go rest
-               | Some (FRes (CErr, es, cs)) =>
-                   Some (None, pre_errs (PKey k) es, pre_calls (PKey k) cs)
-               | Some (FRes (CVal j, es, cs)) =>
-                   match go rest with
-                   | None => None
-                   | Some (r, es', cs') =>
-                       Some (option_map (cons (k, j)) r,
-                             pre_errs (PKey k) es ++ es', pre_calls (PKey k) cs ++ cs')
-                   end
-               end
-             end) g
-        with
+        match exec_groups (exec_field f tn obj) g with
         | None => None
         | Some (Some kvs, es, cs) => Some (CVal (JObj kvs), es, cs)
         | Some (None, es, cs) => Some (CErr, es, cs)
@@ -429,29 +475,7 @@ Section Exec.
             match d with
             | DNull => Some (CVal JNull, [], [])
             | DList items =>
-                match
-                  (fix go (items : list data) (i : nat)
-                     : option (option (list json) * list path * list call) :=
-                     match items with
-                     | [] => Some (Some [], [], [])
-                     | x :: rest =>
-                       match complete f it sels x with
-                       | None => None
-                       | Some o =>
-                         match catch it o with
-                         | (CErr, es, cs) =>
-                             Some (None, pre_errs (PIdx i) es, pre_calls (PIdx i) cs)
-                         | (CVal j, es, cs) =>
-                             match go rest (S i) with
-                             | None => None
-                             | Some (r, es', cs') =>
-                                 Some (option_map (cons j) r,
-                                       pre_errs (PIdx i) es ++ es', pre_calls (PIdx i) cs ++ cs')
-                             end
-                         end
-                       end
-                     end) items O
-                with
+                match complete_items (fun x => option_map (catch it) (complete f it sels x)) items O with
                 | None => None
                 | Some (Some js, es, cs) => Some (CVal (JList js), es, cs)
                 | Some (None, es, cs) => Some (CErr, es, cs)
